@@ -124,6 +124,12 @@ CONTRIB_PARAMS = ['self', 'model', 'start_layer', 'end_layer', 'density_offset',
 
 
 def run(ix, R):
+    _run(ix, R)
+    from rules.common import memo_obligation
+    memo_obligation(ix, R, 'M.memo', ['taurex/model/transmission.py', 'taurex/contributions/contribution.py', 'taurex/contributions/absorption.py'], 'the transmission path')
+
+
+def _run(ix, R):
     # ---- 1. kernel
     kernel_obligations(ix, R, '1', K + '::contribute_tau', KERNEL_PARAMS,
                        'sigma[k+layer, wn]*path[k]*density[k+density_offset]',
